@@ -347,6 +347,21 @@ def run(chk: Check) -> None:
                     if not_loadable:
                         # only when the packets that taught A those parts are not in the snapshot (expired and not asked for)
                         chk.violation("c16.fixpoint.schema.not_loadable." + not_loadable, f"schema differs after restore into a fresh gateway (parts of the reported schema that load_schema does not take, their packets having expired): {json.dumps(case['schemaA'])[:300]} vs {json.dumps(case['schemaB'])[:300]}", rep)
+                    elif only_orphans:
+                        # the recorded finding: presence is judged on _msgs_ (latest I/RP per code), the snapshot is taken from _msgz_ - the
+                        # two gateways disagree about a device *from which the snapshot holds an I/RP packet* (either direction: the
+                        # earlier restore into A itself re-orders A's _msgs_).  A device listed by one side from which the snapshot
+                        # holds no I/RP packet is something else.
+                        oa = {d for k, v in sa.items() if k.startswith("orphans_") for d in v}
+                        ob = {d for k, v in sb.items() if k.startswith("orphans_") for d in v}
+                        srcs = {v[11:20] for v in A1.values() if v[4:6] in (" I", "RP")}      # a value is "<rssi> <frame>"
+                        if (oa - ob) - srcs:
+                            chk.violation("c16.fixpoint.schema.orphan_only_in_source", f"the source gateway's schema lists {sorted((oa - ob) - srcs)} among the orphans although its "
+                                          f"snapshot holds no I/RP packet from them; the gateway restored from the snapshot does not know them: {json.dumps(sa)[:200]} vs {json.dumps(sb)[:200]}", rep)
+                        elif not (ob - oa) <= srcs:
+                            chk.violation("c16.fixpoint.schema.orphan_without_packet", f"the restored gateway lists {sorted(ob - oa - srcs)} among the orphans although the snapshot holds no I/RP packet from them", rep)
+                        else:
+                            chk.violation("c16.fixpoint.schema.orphan_presence", f"schema differs after restore into a fresh gateway: {json.dumps(case['schemaA'])[:300]} vs {json.dumps(case['schemaB'])[:300]}", rep)
                     else:
                       chk.violation("c16.fixpoint.schema.orphan_presence" if only_orphans else "c16.fixpoint.schema.empty_dhw" if empty_dhw else "c16.fixpoint.schema", f"schema differs after restore into a fresh gateway: {json.dumps(case['schemaA'])[:300]} vs {json.dumps(case['schemaB'])[:300]}", rep)
                 if case.get("pktsB2") is not None and case["pktsB2"] != B1:
